@@ -139,9 +139,9 @@ def intervalOverlapCheck(
         timeOverlapFlag = overlapTime >= timeThreshold
         overlapFlag = timeOverlapFlag
 
-    overlapFlag = (
-        overlapFlag or boundaryOverlapFlag or percentOverlapFlag or timeOverlapFlag
-    )
+    # percentOverlapFlag and timeOverlapFlag are already folded into overlapFlag;
+    # or-ing them in again would let one threshold override the other
+    overlapFlag = overlapFlag or boundaryOverlapFlag
 
     return overlapFlag
 
